@@ -302,7 +302,17 @@ class Model:
         if not ok:
             raise RuntimeError("pvmodel build failed:\n" + out[-3000:])
         binary = PVMODEL if name == "main" else os.path.join(OCAML, "pv_" + name)
-        self.p = subprocess.Popen([binary], stdin=subprocess.PIPE, stdout=subprocess.PIPE, text=True, encoding="latin-1", bufsize=1)
+        def _big_stack():
+            import resource
+            try:
+                resource.setrlimit(resource.RLIMIT_STACK, (1 << 29, resource.getrlimit(resource.RLIMIT_STACK)[1]))
+            except Exception:
+                try:
+                    soft, hard = resource.getrlimit(resource.RLIMIT_STACK)
+                    resource.setrlimit(resource.RLIMIT_STACK, (hard, hard))
+                except Exception:
+                    pass
+        self.p = subprocess.Popen([binary], preexec_fn=_big_stack, stdin=subprocess.PIPE, stdout=subprocess.PIPE, text=True, encoding="latin-1", bufsize=1)
         self.n = 0
 
     def ask_raw(self, req):
